@@ -17,7 +17,6 @@ import (
 type (
 	VerifStateMachine       = tmstate.StateMachine
 	VerifStateMachineConfig = tmstate.StateMachineConfig
-	VerifRoundTimer         = tmstate.RoundTimer
 
 	VerifSMRoundEntrance     = tmeil.StateMachineRoundEntrance
 	VerifSMRoundAction       = tmeil.StateMachineRoundAction
